@@ -1,3 +1,5 @@
+from __future__ import annotations
+import copy
 from ..registry import JWS_HEADER_REGISTRY, Header, HeaderParameter
 from ..rfc7515.registry import JWSRegistry as _JWSRegistry
 
@@ -12,6 +14,17 @@ class JWSRegistry(_JWSRegistry):
         if "b64" in header:
             _safe_b64_header(header)
         super(JWSRegistry, self).check_header(header)
+
+
+def construct_registry(
+        algorithms: list[str] | None = None,
+        registry: _JWSRegistry | None = None) -> _JWSRegistry:
+    if registry is None:
+        return JWSRegistry(algorithms=algorithms)
+    if algorithms is not None:
+        registry = copy.copy(registry)
+        registry.allowed = algorithms
+    return registry
 
 
 def _safe_b64_header(header: Header) -> bool:
